@@ -1424,3 +1424,116 @@ def oracle_c12(tables, seed, tier, deep):
 
 
 ORACLES["C12"] = oracle_c12
+
+
+# ------------------------------------------------------------------------------------------- C14
+
+SEARCH_STAGES = {"$search", "$searchMeta", "$vectorSearch", "$rankFusion"}
+
+
+def zone_leaves(tree):
+    """(path, names_on_path_from_zone_root, in_search_stage, sibling_refs, leaf) for every scalar leaf inside a redaction zone of a gated line.
+    names: the string keys from the root of the filter / update / document / stage down to the leaf (arrays are transparent);
+    sibling_refs: '$field' strings that are elements of the same array as the leaf"""
+    out = []
+    attr = tree.get("attr") if isinstance(tree, Obj) else None
+    if not isinstance(attr, Obj):
+        return out
+
+    def walk(t, path, names, search, sibs):
+        if isinstance(t, Obj):
+            for k, v in t:
+                s2 = search or (len(names) == 0 and k in SEARCH_STAGES)
+                walk(v, path + (k,), names + [k], s2, [])
+        elif isinstance(t, list):
+            refs = [e[1:] for e in t if isinstance(e, str) and e.startswith("$")]
+            for i, v in enumerate(t):
+                walk(v, path + (i,), names, search, refs if not isinstance(v, (Obj, list)) else [])
+        else:
+            out.append((path, names, search, sibs, t))
+
+    for ck in CMD_ATTRS:
+        cmd = attr.get(ck)
+        if not isinstance(cmd, Obj):
+            continue
+        for zk, zv in cmd:
+            if zk not in ZONE_KEYS or (zk == "documents" and not cmd.has("insert")):
+                continue
+            base = ("attr", ck, zk)
+            if zk == "pipeline" and isinstance(zv, list) and not isinstance(zv, Obj):
+                for i, st in enumerate(zv):
+                    walk(st, base + (i,), [], False, [])
+            elif isinstance(zv, Obj):
+                walk(zv, base, [], False, [])
+            elif isinstance(zv, list):
+                for i, e in enumerate(zv):
+                    walk(e, base + (i,), [], False, [])
+    return out
+
+
+def oracle_c14(tables, seed, tier, deep):
+    n = 2000 if (tier == "thorough" or deep) else 260
+    rng = SplitMix(seed ^ 0xC14)
+    cases = [cs for cs in grammar_cases(seed ^ 14, n) if cs.fields]
+    pairs = []
+    for i, cs in enumerate(cases):
+        fs = [f for f in cs.fields]
+        pick = [rng.choice(fs)] + ([rng.choice(fs)] if rng.chance(1, 2) else [])
+        comps = []
+        for f in pick:
+            comps += [f] if rng.chance(1, 2) else [rng.choice(f.split("."))]
+        k = i % 5
+        if k == 0:
+            rx = "^(" + "|".join(pyre.escape(x).replace("\\.", "\\.") for x in comps) + ")$"
+        elif k == 1:
+            rx = "|".join(pyre.escape(x) for x in comps)            # unanchored: matches dotted keys containing the name
+        elif k == 2:
+            rx = "^zq_never_a_field$"
+        elif k == 3:
+            rx = "^" + pyre.escape(comps[0])
+        else:
+            rx = pyre.escape(comps[0]) + "$"
+        c = [Cfg(re=rx), Cfg(re=rx, n=True, b=True), Cfg(re=rx, repl="X"), Cfg(re=rx, i=True)][i % 4]
+        pairs.append((cs, c, rx))
+    res = run_lines([(cs, c) for cs, c, _ in pairs])
+    viol, dist = [], collections.Counter()
+    checked = 0
+    for (cs, c, rx), r in zip(pairs, res):
+        t = out_text(r)
+        if has_dups(cs.tree):
+            continue
+        if t is None:
+            viol.append({"site": "sel:noline", "detail": "no output", "cfg": c.s(), "cli_flags": c.cli(), "input": cs.text})
+            continue
+        try:
+            o = parse_json(t)
+        except Exception as e:
+            viol.append({"site": "sel:badjson", "detail": str(e), "cfg": c.s(), "input": cs.text, "output": t})
+            continue
+        R = pyre.compile(rx)
+        for path, names, search, sibs, leaf in zone_leaves(cs.tree):
+            got = get_path(o, path)
+            matched = any(R.search(nm) for nm in names) or any(R.search(x) for x in sibs)
+            checked += 1
+            if search:
+                dist["search-stage (may redact more)"] += 1
+                continue
+            if not matched:
+                dist["unmatched"] += 1
+                same = (type(got) == type(leaf)) and (str(got) == str(leaf) if isinstance(leaf, Num) else got == leaf)
+                if not same:
+                    viol.append({"site": "sel-keep:" + site_of(path), "detail": "no name on the path %r matches %r, but the literal %r was changed to %r" % (names, rx, leaf, got),
+                                 "cfg": c.s(), "cli_flags": c.cli(), "input": cs.text, "output": t})
+            else:
+                dist["matched"] += 1
+                if isinstance(leaf, str) and not isinstance(leaf, Num):
+                    toks = [m.group(0) for m in TOK.finditer(leaf)]
+                    sens = [x for x in toks if cs.roles.get(x) in SENSITIVE_ROLES]
+                    if sens and not leaf.startswith("$") and isinstance(got, str) and any(x in got for x in sens):
+                        viol.append({"site": "sel-redact:" + site_of(path), "detail": "a name on the path %r matches %r, but the literal %r survives as %r" % (names, rx, leaf, got),
+                                     "cfg": c.s(), "cli_flags": c.cli(), "input": cs.text, "output": t})
+    return result(viol, len(pairs), checked, "grammar lines x regexps built from their own field names (anchored, unanchored, prefix, suffix, never matching) x flag sets; every scalar leaf of every zone is compared with an independent path-based reference: names on the path from the zone root, '$field' siblings; distinct_nontrivial = leaves checked",
+                  dist, [{"line": pairs[0][0].text[:300], "regexp": pairs[0][2]}] if pairs else [])
+
+
+ORACLES["C14"] = oracle_c14
